@@ -142,13 +142,15 @@ def exc_where(exc):
 # ---------------------------------------------------------------------------------------------------
 
 class Utxo:
-    __slots__ = ('op', 'amount', 'acct', 'address', 'height', 'verified', 'spent', 'held_by', 'txo', 'seq')
+    __slots__ = ('op', 'amount', 'acct', 'address', 'height', 'verified', 'spent', 'held_by', 'txo', 'seq',
+                 'purchase')
 
     def __init__(self, op, amount, acct, address, height, verified, txo, seq):
         self.op, self.amount, self.acct, self.address = op, amount, acct, address
         self.height, self.verified, self.txo, self.seq = height, verified, txo, seq
         self.spent = False
         self.held_by = None
+        self.purchase = False      # a received purchase payment (the save path files it as txo_type 'purchase')
 
     @property
     def confirmed(self):
@@ -408,15 +410,22 @@ class WalletSim:
         tx = Transaction(height=height, is_verified=verified)
         tx.add_inputs([Input.spend(dummy.outputs[0])])
         addresses = []
+        purchase = bool(spec.get('purchase'))
+        if purchase:
+            outs = outs[:1]        # output 0 is the payment, output 1 the purchase data
         for chain, idx, amount in outs:
             address = self.address_pick(acct, int(chain), int(idx))
             addresses.append(address)
             tx.add_outputs([Output.pay_pubkey_hash(int(amount), self.ledger.address_to_hash160(address))])
+        if purchase:
+            from lbry.schema.purchase import Purchase
+            tx.add_outputs([Output.add_purchase_data(Purchase('%040x' % (0xabc000 + self.fund_seq)))])
         # the model learns the outputs before the first database job: a concurrent build may select one
         # as soon as its row exists
         made = []
         for i, address in enumerate(addresses):
             made.append(self._add_utxo(tx.outputs[i], acct, address, height, verified))
+            made[-1].purchase = purchase
         await self.db.insert_transaction(tx)
         for address in dict.fromkeys(addresses):
             self.history[address] = self.history.get(address, '') + f'{tx.id}:{tx.height}:'
@@ -521,9 +530,9 @@ class WalletSim:
         return amounts
 
     # ---- one build -----------------------------------------------------------------------------------
-    def pick_pre(self, spec, funding):
+    def pick_pre(self, spec, funding, exclude=()):
         pre_spec = spec.get('pre')
-        avail = self.available(funding)
+        avail = self.available(funding, exclude)
         if not pre_spec or not avail:
             return []
         if pre_spec == 'all':
@@ -533,12 +542,13 @@ class WalletSim:
         idx = sorted({min(len(avail) - 1, int(float(f) * len(avail))) for f in pre_spec})
         return [avail[j] for j in idx]
 
-    async def prepare(self, b):
-        """Resolve funding accounts, pre-chosen inputs (reserved the way Account.fund does) and outputs."""
+    async def prepare(self, b, exclude=()):
+        """Resolve funding accounts, pre-chosen inputs (reserved the way Account.fund does) and outputs.
+        `exclude`: outpoints a listing would not show although the model has them free (held by running builds)."""
         spec = b.spec
         b.funding = sorted({int(i) % self.n_accounts for i in (spec.get('funding') or [0])})
         b.change = int(spec.get('change', b.funding[0])) % self.n_accounts
-        b.pre = self.pick_pre(spec, set(b.funding))
+        b.pre = self.pick_pre(spec, set(b.funding), exclude)
         if b.pre:
             # Account.fund(everything) reserves what it hands in; jsonrpc_txo_spend hands in plain,
             # unreserved outputs of the funding account (`pre_unreserved`)
